@@ -1478,3 +1478,66 @@ func ruleRelevantIndex(c *report.Ctx, floor int) {
 		})
 	}
 }
+
+// ruleSelectionResetOnDelete (C19): removing the selected keystore from the cache clears the selection.
+func ruleSelectionResetOnDelete(c *report.Ctx) {
+	p := c.P
+	c.Rule("selection-reset-on-delete", "DeleteKeystore clears km.currentKeystore when it names the deleted wallet: readers of the selection index managedKeystores[currentKeystore.accountName] without a nil test and rely on 'selected ⇒ cached'", 1)
+	f := fn(c, pkgKeystore, "KeystoreManager", "DeleteKeystore")
+	if f == nil {
+		return
+	}
+	var dels []ssa.Instruction
+	an.Instrs(f, func(in ssa.Instruction) {
+		cc := an.CallOf(in)
+		if cc == nil {
+			return
+		}
+		if b, ok := cc.Value.(*ssa.Builtin); ok && b.Name() == "delete" && strings.HasSuffix(p.Desc(cc.Args[0]), "KeystoreManager.managedKeystores") {
+			dels = append(dels, in)
+		}
+	})
+	if len(dels) == 0 {
+		c.Fail(sk(f)+":delete", "anchor lost: DeleteKeystore no longer removes the wallet from managedKeystores", p.Pos(f.Pos()))
+		return
+	}
+	isReset := func(in ssa.Instruction) bool {
+		st, ok := in.(*ssa.Store)
+		if !ok || !an.IsNilConst(st.Val) {
+			return false
+		}
+		fa, ok := st.Addr.(*ssa.FieldAddr)
+		return ok && derefStructT(fa.X.Type()).Field(fa.Field).Name() == "currentKeystore"
+	}
+	for i, d := range dels {
+		key := siteKey(f, "delete=>currentKeystore-reset", i+1)
+		idx := 0
+		for k, in := range d.Block().Instrs {
+			if in == d {
+				idx = k
+			}
+		}
+		s := &an.Search{P: p, Fn: f, Cut: isReset,
+			CutEdge: func(from, to *ssa.BasicBlock) bool {
+				a := edgeAtoms(p, from, to)
+				if a == nil {
+					return false
+				}
+				// the edges on which the selection is known not to name the deleted wallet
+				if a.Op == token.EQL && a.Y != nil && an.IsNilConst(a.Y) && strings.HasSuffix(p.Desc(a.X), "currentKeystore") {
+					return true
+				}
+				if a.Op == token.NEQ && (strings.HasSuffix(p.Desc(a.X), "currentKeystore.accountName") || strings.HasSuffix(p.Desc(a.Y), "currentKeystore.accountName")) {
+					return true
+				}
+				return false
+			},
+			GoalReturn: func(r *ssa.Return, pred *ssa.BasicBlock) bool { return true },
+		}
+		if w := s.Run(d.Block(), idx+1, nil); w != nil {
+			c.Fail(key, "after delete(managedKeystores, id) DeleteKeystore can return with currentKeystore still naming the deleted wallet: GetManagedAddressByScriptHashInCurrent (ValidateAddress) then indexes a nil *AddrManager and panics instead of reporting that no wallet is in use", posOf(c, d), w...)
+		} else {
+			c.OK(key, "reset or provably not the selected wallet on every path", posOf(c, d))
+		}
+	}
+}
